@@ -26,6 +26,13 @@ func stressOp(r *vh.Rand, cfg stressCfg, g, i int) op {
 	name := fmt.Sprintf("C%d", k)
 	id := g*1000000 + i + 1
 	file := g%3 + 1
+	if cfg.Mix == "load" {
+		o := op{K: vh.Pick(r, []string{"al", "al", "al", "gc", "lp"}), N: fmt.Sprintf("App\\Auto%d", k)}
+		if o.K == "lp" {
+			o.N = fmt.Sprintf("App\\IAuto%d", k)
+		}
+		return o
+	}
 	var kind string
 	switch cfg.Mix {
 	case "add":
@@ -83,6 +90,17 @@ func stressChild(args []string) int {
 		cfg.Names = 8
 	}
 	vm := newVM()
+	if cfg.Mix == "load" {
+		// one class file and one interface file per name, resolved through the class path manager
+		if cfg.Names > 64 {
+			cfg.Names = 64
+		}
+		for k := 0; k < cfg.Names; k++ {
+			os.WriteFile(fmt.Sprintf("%s/IAuto%d.php", cfg.Dir, k), []byte(fmt.Sprintf("<?php\nnamespace App;\ninterface IAuto%d {}\n", k)), 0o644)
+			os.WriteFile(fmt.Sprintf("%s/Auto%d.php", cfg.Dir, k), []byte(fmt.Sprintf("<?php\nnamespace App;\nclass Auto%d implements IAuto%d { public function f() { return %d; } }\n", k, k, k)), 0o644)
+		}
+		vm.AddNamespace("App", cfg.Dir)
+	}
 	var clock int64
 	recs := make([][]rec, cfg.G)
 	start := make(chan struct{})
@@ -111,6 +129,9 @@ func stressChild(args []string) int {
 		all = append(all, l...)
 	}
 	v := witness(all)
+	if cfg.Mix == "load" {
+		v = witnessLoad(all)
+	}
 	b, _ := json.Marshal(v)
 	os.Stdout.Write(b)
 	return 0
@@ -301,6 +322,42 @@ func witness(all []rec) stressVerdict {
 			}
 			if !hit && done {
 				return fail("registered-not-visible", "file %s: SetPhpFileCache completed, then GetPhpFileCache answered false", k)
+			}
+		}
+	}
+	return v
+}
+
+// witnessLoad judges the autoload stream: every class file exists, so in any
+// sequential order of the calls GetOrLoadClass finds (loads) the class, and a
+// class that some completed call has found stays visible.
+func witnessLoad(all []rec) stressVerdict {
+	v := stressVerdict{OK: true, Calls: len(all)}
+	done := map[string]int64{} // name -> earliest completion stamp of a successful load
+	for _, r := range all {
+		if r.o.K == "al" && strings.HasPrefix(r.r, "hit") {
+			v.OkAdd++
+			if e, ok := done[r.o.N]; !ok || r.e < e {
+				done[r.o.N] = r.e
+			}
+		}
+	}
+	for _, r := range all {
+		switch {
+		case strings.HasPrefix(r.r, "panic"):
+			v.OK, v.Sig, v.What = false, "stress:load:panic", fmt.Sprintf("%s answered %s", r.o.model(), r.r)
+			return v
+		case r.o.K == "al" && !strings.HasPrefix(r.r, "hit"):
+			v.OK, v.Sig = false, "stress:load:spurious-class-not-found"
+			v.What = fmt.Sprintf("GetOrLoadClass(%q) answered %s although its class file exists (another goroutine was loading the same file: the file is marked loaded before its classes are registered)", r.o.N, r.r)
+			return v
+		case r.o.K == "gc":
+			if strings.HasPrefix(r.r, "hit") {
+				v.Hits++
+			} else if e, ok := done[r.o.N]; ok && e < r.s {
+				v.OK, v.Sig = false, "stress:witness:registered-not-visible"
+				v.What = fmt.Sprintf("GetOrLoadClass(%q) had returned the class, then GetClass answered %s", r.o.N, r.r)
+				return v
 			}
 		}
 	}
